@@ -25,6 +25,8 @@ func nameSpaceEvaluation(
 	case t.IsClassIdentifier():
 		ctx.SetFrame(base.CalculateFrame(frame, parentClass))
 		t = base.MakeClass(t.ToString())
+		// the completion of `Outer::K.` walks K's ancestors from its frame
+		t.SetFrame(ctx.GetFrame())
 
 	case t.IsConstIdentifier():
 		ctx.SetFrame(base.CalculateFrame(frame, parentClass))
